@@ -112,7 +112,7 @@ theorem nsqdStatsGo_failed (fx : Fixes) (w : World) (sel selc : String) (incl : 
       simp only [statsAnswers, List.map_cons, ha, countFailed_cons_none] at *; omega
     | some ans =>
       simp only [ha] at h
-      cases ht : topicsOfNode fx p sel ans m with
+      cases ht : nodeAnswer fx p sel ans m with
       | error e => simp [ht] at h
       | ok r =>
         obtain ⟨tns, m1⟩ := r
